@@ -211,9 +211,9 @@ def alphabet(n: int, values, bounds, m: Model, with_neg: bool):
     if n == 1:
         subsets = [(1,), None]
     elif n == 2:
-        subsets = [(1,), (2,), (3,), (1, 2), (1, 3), (2, 3), None]
+        subsets = [(1,), (2,), (3,), (1, 2), (1, 3), (2, 3), (3, 1), (2, 1), None]        # also lists that are NOT in ascending id order
     else:
-        subsets = [(1,), (3, 5), (1, 6, N - 1), None]
+        subsets = [(1,), (3, 5), (1, 6, N - 1), (6, 1, 3), (N - 1, 2), None]
     for sub in subsets:
         size = N if sub is None else len(sub)
         for pat in ((values[-1], values[0]), (values[0], values[-1])):
